@@ -41,7 +41,8 @@ def wrong_values(rng, cur, width, full):
 
 
 def suite_echo(ctx):
-    from .. import declib
+    from .. import declib, enclib
+    BAD_IO_ENTRIES = {d for d, e in enclib.IO.items() if 'mask' in e and e.get('mask_size') is not None and any(m > 2 ** (8 * e['mask_size']) - 1 for m in e['mask'].values())}
     s = Suite('echo')
     rng = ctx.rng
     lines, impl = [], []
@@ -93,13 +94,20 @@ def suite_echo(ctx):
                     s.count('%s/%s:%s' % (name, fname, tag))
                     if 'not compared' in fname:
                         continue
-                    if 'named again' in fname and ('dids=' in c.dline) and v in [int(x) for x in c.dline.split('dids=')[1].split(' ')[0].split(',')]:
-                        # the second record of an identifier named twice now carries another identifier of the same request: every identifier requested is
-                        # still answered and nothing else is (the set of identifiers is what the reply is compared with)
-                        continue
+                    if fname.startswith('data identifier') and 'dids=' in c.dline:
+                        req_dids = [int(x) for x in c.dline.split('dids=')[1].split(' ')[0].split(',')]
+                        if v in req_dids and req_dids.count(cur) >= 2:
+                            # one of the two records of an identifier named twice now carries another identifier of the same request: every identifier
+                            # requested is still answered (by the other record) and nothing else is - the set of identifiers is what the reply is compared with
+                            continue
                     if fname == 'record number' and v == 0 and c.config.get('tolerate_zero_padding') and not any(d[off:]):
                         # a zero record number followed by zeros only, with padding tolerated, *is* padding after the matching reply (C11), not a second echo
                         s.count('%s/%s:zero-tail-is-padding' % (name, fname))
+                        continue
+                    if name == 'io' and fname == 'data identifier' and tag == 'ValueError' and v in BAD_IO_ENTRIES:
+                        # the wrong echo is an identifier whose own configuration entry is unusable (a mask wider than its declared size): the reply is
+                        # refused with the library's error for that entry - not handed over, which is all the property asks; the theorems assume a valid configuration
+                        s.count('io/echo lands on an unusable configuration entry')
                         continue
                     if tag not in REJECTED:
                         s.fail({'site': c.site, 'input': line, 'generator': name, 'field': fname, 'sent': cur, 'echoed': v, 'switches': list(exc),
